@@ -159,6 +159,39 @@ def run_fsize(doc, fmt, workdir, tmpdir, name, present, limit):
     return before, snapshot(workdir), sorted(os.listdir(tmpdir)), exc
 
 
+def run_symlink(doc, fmt, base, absolute_target):
+    """the destination is a symbolic link (relative or absolute target) in a sub-directory, and the working directory holds an
+    unrelated file with the name the link points to: returns (bytes now readable under the destination name, bystanders before,
+    bystanders after, exception)"""
+    root = os.path.join(base, "links")
+    shutil.rmtree(root, ignore_errors=True)
+    os.makedirs(os.path.join(root, "out"))
+    with open(os.path.join(root, "data.out"), "wb") as f:
+        f.write(b"unrelated file in the working directory")
+    with open(os.path.join(root, "out", "data.out"), "wb") as f:
+        f.write(OLD)
+    os.symlink(os.path.join(root, "out", "data.out") if absolute_target else "data.out", os.path.join(root, "out", "latest.out"))
+    cwd = os.getcwd()
+    os.chdir(root)
+    exc = None
+    try:
+        before = {k: v for k, v in snapshot(root).items()}
+        try:
+            doc.serialize(os.path.join("out", "latest.out"), format=fmt)
+        except Exception as e:  # noqa
+            exc = e
+        try:
+            with open(os.path.join(root, "out", "latest.out"), "rb") as f:
+                got = f.read()
+        except OSError:
+            got = None
+        after = snapshot(root)
+    finally:
+        os.chdir(cwd)
+        shutil.rmtree(root, ignore_errors=True)
+    return got, before, after, exc
+
+
 def run(ctx, use_model=True):
     g = Gen(ctx.seed * 1000003 + 17)
     fails = []
@@ -182,6 +215,24 @@ def run(ctx, use_model=True):
                 except Exception:
                     ctx.count("format-not-applicable:" + fmt)
                     continue
+                # the destination name is a symbolic link: whatever is written is what the *name given* then reads as, and no file
+                # that merely shares a name with the link's target is touched
+                for absolute_target in (False, True):
+                    got, before, after, exc = run_symlink(doc, fmt, base, absolute_target)
+                    ctx.evaluations += 1
+                    ctx.count("destination-is-symlink:%s" % ("absolute" if absolute_target else "relative"))
+                    case = {"name": "out/latest.out -> data.out", "format": fmt, "symlink": True, "absolute_target": absolute_target}
+                    if exc is not None:
+                        fails.append(Failure("oracle", None, "writing to a symbolic link raised %r" % (exc,), case))
+                    elif (fmt != "rdf" and got != expected_bytes) or got is None or (fmt == "rdf" and len(got) == 0 and len(expected_bytes) > 0):
+                        fails.append(Failure("oracle", None, "the destination name (a symbolic link) does not read as the complete "
+                                             "serialisation afterwards (%s bytes vs %s)" % (None if got is None else len(got), len(expected_bytes)), case))
+                    if after.get("data.out") != before.get("data.out"):
+                        fails.append(Failure("oracle", None, "a file in the working directory that only shares its name with the link's "
+                                             "target was written", case))
+                    extra = [k for k in after if k not in before]
+                    if extra:
+                        fails.append(Failure("oracle", None, "written somewhere else: %r" % (extra,), case))
                 names = NAMES if ctx.tier == "thorough" else g.rng.sample(NAMES, 4)
                 for name in names:
                     for present in (False, True):
